@@ -488,8 +488,17 @@ impl Scenario for C04 {
                         );
                         out.expect(r.is_ok(), "execute.transfer-event", || truncate(&r.unwrap_err(), 500));
                         if *k == Kind::TransferWithData {
-                            let n = call.events.iter().filter(|e| e.name() == "app_executed").count();
-                            out.expect(n == 1, "execute.app-not-called-once", || format!("{} app_executed events", n));
+                            // the app is called exactly once, with exactly the announced arguments
+                            let r = match_events(
+                                &call.events,
+                                &[EvPat {
+                                    contract: iw.sc(&iw.app),
+                                    name: "app_executed",
+                                    must: vec![sstr(&origin), sstr(&id), sbytes(b"0xSenderOnOrigin"), sbytes(b"app-data"), sbytes(&ctx.t1_id), w.sc_addr_val(&ctx.t1), si128(5)],
+                                }],
+                                &["app_executed"],
+                            );
+                            out.expect(r.is_ok(), "execute.app-call-arguments", || truncate(&r.unwrap_err(), 600));
                         }
                     }
                     Kind::Deploy | Kind::DeployWithMinter => {
